@@ -342,6 +342,58 @@ func c11DiskStack(src string, hidden map[string]bool, stack int) (fsutil.FS, err
 	return fsutil.NewFilterFS(inner, &fsutil.FilterOpt{ExcludePatterns: exc})
 }
 
+// c11GroupXattrs gives regular-file link groups user.* xattrs: they belong to the inode, so every
+// name of the group carries the same set (as llistxattr / lgetxattr report for each name).
+// Returns the number of groups that got xattrs.
+func c11GroupXattrs(r *Rng, v []*MNode, pct int) int {
+	byPath := map[string]*MNode{}
+	var order []*MNode
+	var walk func(dir string, ns []*MNode)
+	walk = func(dir string, ns []*MNode) {
+		for _, k := range ns {
+			p := k.Name
+			if dir != "" {
+				p = dir + "/" + k.Name
+			}
+			byPath[p] = k
+			order = append(order, k)
+			walk(p, k.Kids)
+		}
+	}
+	walk("", v)
+	n := 0
+	done := map[*MNode]bool{}
+	for _, k := range order {
+		if k.Stat.Linkname == "" || os.FileMode(k.Stat.Mode)&os.ModeType != 0 {
+			continue
+		}
+		src := byPath[k.Stat.Linkname]
+		if src == nil {
+			continue
+		}
+		if !done[src] {
+			done[src] = true
+			if r.Chance(pct) {
+				src.Stat.Xattrs = map[string][]byte{"user.k" + string(rune('a'+r.Intn(3))): fillContent(r, 1+r.Intn(6))}
+				if r.Chance(30) {
+					src.Stat.Xattrs["user.z"] = []byte{0, 1, 2}
+				}
+				n++
+			} else {
+				src.Stat.Xattrs = nil
+			}
+		}
+		k.Stat.Xattrs = nil
+		if src.Stat.Xattrs != nil {
+			k.Stat.Xattrs = map[string][]byte{}
+			for a, b := range src.Stat.Xattrs {
+				k.Stat.Xattrs[a] = b
+			}
+		}
+	}
+	return n
+}
+
 // Materialize creates every FIFO / device name as a node of its own; make the further names of such
 // a link group real hard links
 func c11LinkSpecials(view []*MNode, dir string) error {
@@ -1040,6 +1092,7 @@ func genC11(g *Gen) {
 		r := g.Rng
 		v := GenView(r, TreeOpts{MaxEntries: 5 + r.Intn(10), MaxDepth: 3, Names: small, Types: r.Chance(35), HardLinks: true, Owners: r.Chance(40)})
 		c11LinkGroups(r, v, 45)
+		xg := c11GroupXattrs(r, v, 70)
 		// members per link source
 		members := map[string]int{}
 		var files []string
@@ -1081,6 +1134,9 @@ func genC11(g *Gen) {
 		}
 		if c11SpecialLinks(v) > 0 {
 			cls += "+nonregular-group"
+		}
+		if xg > 0 {
+			cls += "+group-xattrs"
 		}
 		g.Emit(0x1105, L(ViewSx(v), L(hid...), NI(stack)), srcHidden, cls)
 	}
